@@ -68,6 +68,7 @@ bool reservedFitsKeyword(const char* key){
 	       strcmp("GCOUNT", key) == 0 ||
 	       strcmp("XTENSION", key) == 0 ||
 	       strcmp("EXTNAME", key) == 0 ||
+	       strcmp("HDUNAME", key) == 0 || //extensions are looked up by name, and cfitsio also matches this keyword
 	       strcmp("BSCALE", key) == 0 ||
 	       strcmp("BZERO", key) == 0 ||
 	       strcmp("BLANK", key) == 0);
